@@ -258,7 +258,7 @@ pub fn str_snap(s: &CacheSnap<u64>) -> String {
     };
     let hist = match &s.hist {
         None => "off".to_string(),
-        Some((c, sum, min, max, b)) => format!("{},{},{},{},{}", c, sum, min, max, b.iter().sum::<i64>()),
+        Some((c, sum, min, max, b)) => format!("{},{},{},{},{}", c, sum, min, max, b.iter().map(|x| x.to_string()).collect::<Vec<_>>().join("/")),
     };
     format!(
         "now={} closed={} polclosed={} buf={} pq={} ring={} store={} em={} max={} used={} kc={} met={} hist={} {}",
@@ -461,6 +461,9 @@ impl Case {
         if self.is_quiescent(&after) {
             let tick_done = std::mem::replace(&mut self.tick_since_quiescent, false);
             self.mon.quiescent(&after, now, tick_done);
+            // C17: ratio() is hits / (hits + misses) (0 when there were no lookups)
+            let ratio = match &*self.ck { CK::S(c) => c.metrics.ratio(), CK::A(c) => c.metrics.ratio() };
+            self.mon.ratio(&after, ratio);
         }
     }
 
